@@ -14,20 +14,148 @@ func init() { Register(c03{}) }
 
 func (c03) ID() string { return "C03" }
 
+// cgo preamble texts (no trailing blanks, nothing gofmt alters: the oracle compares the
+// comments above `import "C"` with these texts literally)
+var cgoPreamblePool = []string{"#include <stdio.h>", "#include <a.h>\n#include <b.h>", "// raw form", "#cgo LDFLAGS: -lm", "/* raw block */", "int twice(int x) { return 2*x; }\n"}
+
+// bases of the trailing-slash pairs: the path and the path + "/" are two different import
+// paths with independent hints
+var slashPairBases = []string{"a.b/yaml", "x.y/d", "gopkg.in/yaml.v3", "a.b/rand", "net/http", "a.b/x"}
+
+// insertOps inserts every op of ops at a random position of setup behind the constructor
+// and the prefix (index >= first), keeping the relative order of ops.
+func insertOps(r *rand.Rand, setup hist.History, ops hist.History) hist.History {
+	first := 1
+	for first < len(setup) && setup[first].Kind == "prefix" {
+		first++
+	}
+	at := first
+	for _, op := range ops {
+		at += r.Intn(len(setup) - at + 1)
+		setup = append(setup[:at:at], append(hist.History{op}, setup[at:]...)...)
+		at++
+	}
+	return setup
+}
+
+// refCaseRandom draws one file with traceable references (stream "random" of C03, stream
+// "hidden+hints" of C04).
+//
+// Beyond the settings of FileSetup (o.NoCgo is honoured here, FileSetup itself never adds a
+// preamble for these streams):
+//
+//	cgo shapes (1 case in 5 unless o.NoCgo): 1 or 2 CgoPreamble blocks and nothing else that
+//	  names C (cgo-preamble-only), Anon("C") with / without a preamble (cgo-anon), references
+//	  Qual("C", name) with / without a preamble and with / without Anon("C") (cgo-qual); in a
+//	  quarter of the cases with a reference a hint for the path "C" itself (ImportName("C", n),
+//	  ImportAlias("C", n), ImportAlias("C", ".")) which must change nothing (cgo-hint-on-C).
+//	  Half of these cases have only 0..2 other paths (tag other-imports=N: number of import
+//	  specs other than "C" the file must have).  ImportName(p, "C") is never generated
+//	  (recorded finding hint-named-C).
+//	keyword paths (1 case in 10 forced, many more by chance): a path whose guessed alias is a
+//	  keyword is referenced in a file WITHOUT PackagePrefix (a prefix makes any name legal):
+//	  tag keyword-path-no-prefix (only when no hint names that path and it is not local).
+//	trailing-slash pair (1 case in 12): p and p + "/" with ImportName hints of DIFFERENT names
+//	  (one ImportNames map, two ImportName calls, or one of each), both or one referenced.
+//	blank hints (o.BlankHints, 1 case in 3): 1..3 hints NAMED "_" (ImportName or ImportAlias)
+//	  for paths that are referenced nowhere (paths of the case that drew no reference, or
+//	  fresh unused paths); tag blank-hint-unreferenced.
 func refCaseRandom(r *rand.Rand, maxPaths int, o SetupOpts, hiddenRate int) *Case {
 	paths := somePaths(r, maxPaths)
-	if len(paths) == 0 {
+	// ---- cgo shape
+	nPre, anonC, qualC, hintC := 0, false, false, false
+	cgoShape := !o.NoCgo && r.Intn(5) == 0
+	if cgoShape {
+		switch r.Intn(7) {
+		case 0, 1:
+			nPre = 1 + r.Intn(2)
+		case 2:
+			nPre, anonC = 1+r.Intn(2), true
+		case 3:
+			anonC = true
+		case 4, 5:
+			nPre, qualC = r.Intn(3), true
+		default:
+			nPre, qualC, anonC = r.Intn(3), true, true
+		}
+		hintC = qualC && r.Intn(4) == 0
+		if r.Intn(2) == 0 { // few other paths: 0, 1, 2
+			k := r.Intn(3)
+			if len(paths) > k {
+				paths = paths[:k]
+			}
+		}
+	} else if len(paths) == 0 {
 		paths = []string{pick(r, PathPool)}
 	}
+	idx := func(p string) int {
+		for i, q := range paths {
+			if q == p {
+				return i
+			}
+		}
+		return -1
+	}
+	// ---- a keyword path in a file without prefix
+	forced := map[int]bool{} // indices that are referenced whatever the draw below says
+	noPrefix := false
+	if r.Intn(10) == 0 {
+		kp := pick(r, KeywordPaths)
+		if idx(kp) < 0 {
+			paths = append(paths, kp)
+		}
+		forced[idx(kp)] = true
+		noPrefix = true
+	}
+	// ---- a trailing-slash pair
+	pairA, pairB := -1, -1
+	if r.Intn(12) == 0 {
+		base := pick(r, slashPairBases)
+		for _, p := range []string{base, base + "/"} {
+			if idx(p) < 0 {
+				paths = append(paths, p)
+			}
+		}
+		pairA, pairB = idx(base), idx(base+"/")
+		if r.Intn(2) == 0 {
+			pairA, pairB = pairB, pairA
+		}
+		forced[pairA] = true // pairB: referenced or not, by the draw below
+	}
+
 	o.Paths = paths
-	setup, local := FileSetup(r, 0, o)
+	fo := o
+	fo.NoCgo = true
+	setup, local := FileSetup(r, 0, fo)
+	if noPrefix {
+		var s2 hist.History
+		for _, op := range setup {
+			if op.Kind != "prefix" {
+				s2 = append(s2, op)
+			}
+		}
+		setup = s2
+	}
+	if qualC {
+		paths = append(paths, "C")
+	}
+
+	// ---- which paths are referenced, hidden, or named by hints / Anon only
 	var refs, hidden []int
+	unref := []string{}
 	for i := range paths {
 		switch {
+		case forced[i]:
+			for k := 0; k < 1+r.Intn(3); k++ {
+				refs = append(refs, i)
+			}
 		case hiddenRate > 0 && r.Intn(hiddenRate) == 0:
 			hidden = append(hidden, i)
-		case hiddenRate > 0 && r.Intn(6) == 0:
-			// named by hints / Anon only, referenced nowhere (streams with hidden references only)
+		case hiddenRate > 0 && r.Intn(6) == 0, i == pairB && r.Intn(3) == 0:
+			// named by hints / Anon only, referenced nowhere
+			if paths[i] != "C" {
+				unref = append(unref, paths[i])
+			}
 		default:
 			for k := 0; k < 1+r.Intn(3); k++ {
 				refs = append(refs, i)
@@ -35,12 +163,77 @@ func refCaseRandom(r *rand.Rand, maxPaths int, o SetupOpts, hiddenRate int) *Cas
 		}
 	}
 	r.Shuffle(len(refs), func(a, b int) { refs[a], refs[b] = refs[b], refs[a] })
+
+	// ---- further setup operations, inserted at random positions behind the constructor
+	var extra hist.History
+	for i := 0; i < nPre; i++ {
+		extra = append(extra, hist.Op{Kind: "cgo", F: 0, A: pick(r, cgoPreamblePool)})
+	}
+	if anonC {
+		strs := []string{"C"}
+		if r.Intn(3) == 0 { // Anon("C") shares its call with another path
+			if p := pick(r, PathPool); p != local {
+				strs = append(strs, p)
+				r.Shuffle(len(strs), func(a, b int) { strs[a], strs[b] = strs[b], strs[a] })
+			}
+		}
+		k := r.Intn(len(extra) + 1) // before, between or behind the preambles
+		extra = append(extra[:k:k], append(hist.History{{Kind: "anon", F: 0, Strs: strs}}, extra[k:]...)...)
+	}
+	setup = insertOps(r, setup, extra)
+	if hintC {
+		var op hist.Op
+		switch r.Intn(3) {
+		case 0:
+			op = hist.Op{Kind: "importname", F: 0, A: "C", B: pick(r, namePool)}
+		case 1:
+			op = hist.Op{Kind: "importalias", F: 0, A: "C", B: pick(r, namePool)}
+		default:
+			op = hist.Op{Kind: "importalias", F: 0, A: "C", B: "."}
+			if o.NoDot {
+				op.B = "cc"
+			}
+		}
+		setup = insertOps(r, setup, hist.History{op})
+	}
+	if pairA >= 0 {
+		n := pick(r, namePool)
+		a, b := [2]string{paths[pairA], n}, [2]string{paths[pairB], n + "v2"}
+		var ops hist.History
+		switch r.Intn(3) {
+		case 0:
+			pairs := [][2]string{a, b}
+			if r.Intn(2) == 0 {
+				pairs = [][2]string{b, a}
+			}
+			ops = hist.History{{Kind: "importnames", F: 0, Pairs: pairs}}
+		case 1:
+			ops = hist.History{{Kind: "importname", F: 0, A: a[0], B: a[1]}, {Kind: "importname", F: 0, A: b[0], B: b[1]}}
+		default:
+			ops = hist.History{{Kind: "importnames", F: 0, Pairs: [][2]string{a}}, {Kind: "importname", F: 0, A: b[0], B: b[1]}}
+		}
+		setup = insertOps(r, setup, ops)
+	}
+	if o.BlankHints && r.Intn(3) == 0 {
+		var ops hist.History
+		for k := 1 + r.Intn(3); k > 0; k-- {
+			p := fmt.Sprintf("unused.host/b%d", r.Intn(5))
+			if len(unref) > 0 && r.Intn(2) == 0 {
+				p = pick(r, unref)
+			}
+			ops = append(ops, hist.Op{Kind: pick(r, []string{"importname", "importalias"}), F: 0, A: p, B: "_"})
+		}
+		setup = insertOps(r, setup, ops)
+	}
+
 	rc, h := BuildRefCase(r, paths, setup, local, refs, hidden)
 	h = append(h, hist.Op{Kind: "noformat", F: 0, Flag: r.Intn(2) == 0})
 	h = append(h, hist.Op{Kind: "render", F: 0})
 	h = append(h, hist.Op{Kind: "imports", F: 0})
 	tags := []string{fmt.Sprintf("paths=%d", len(paths)), fmt.Sprintf("prefix=%v", rc.Prefix != ""), fmt.Sprintf("local=%v", local != "")}
 	tags = append(tags, refAnonTags(rc, setup)...)
+	tags = append(tags, SetupTags(setup)...)
+	tags = append(tags, refShapeTags(rc, setup, pairA >= 0)...)
 	for _, i := range refs {
 		if SymbolThenDigit(paths[i]) {
 			// a referenced path whose last element is symbol(s)+digit...: _3rd, .2fa, -9lives, é9x
@@ -48,9 +241,129 @@ func refCaseRandom(r *rand.Rand, maxPaths int, o SetupOpts, hiddenRate int) *Cas
 			break
 		}
 	}
-	return &Case{Hist: h, Stream: "random", NonTrivial: len(paths) > 1,
+	// NonTrivial: at least two paths (so that names can collide and references can be
+	// confused), or a cgo shape (the "C" import is subject to rules of its own)
+	return &Case{Hist: h, Stream: "random", NonTrivial: len(paths) > 1 || rc.Cgo || rc.Anon["C"],
 		Meta: map[string]interface{}{"rc": rc},
 		Tags: tags}
+}
+
+// refShapeTags: the tags of the cgo shapes, of keyword paths referenced without prefix, of
+// trailing-slash pairs and of blank hints, computed from the bookkeeping of the case (not
+// from what the generator intended).
+func refShapeTags(rc *RefCase, setup hist.History, pair bool) []string {
+	var tags []string
+	hasC := false
+	for _, p := range rc.Paths {
+		if p == "C" {
+			hasC = true
+		}
+	}
+	anonC, qualC := rc.Anon["C"], rc.Referenced("C")
+	if rc.Cgo || anonC || hasC {
+		if rc.Cgo {
+			tags = append(tags, fmt.Sprintf("cgo-preambles=%d", len(rc.Preambles)))
+		}
+		switch {
+		case rc.Cgo && !anonC && !hasC:
+			tags = append(tags, "cgo-preamble-only")
+		}
+		if anonC {
+			tags = append(tags, "cgo-anon")
+			if rc.Cgo {
+				tags = append(tags, "cgo-anon+preamble")
+			} else {
+				tags = append(tags, "cgo-anon-no-preamble")
+			}
+		}
+		if qualC {
+			tags = append(tags, "cgo-qual")
+			if rc.Cgo {
+				tags = append(tags, "cgo-qual+preamble")
+			} else {
+				tags = append(tags, "cgo-qual-no-preamble")
+			}
+		} else if hasC {
+			tags = append(tags, "cgo-qual-hidden") // Qual("C", ..) only at positions that render nothing
+		}
+		if _, ok := rc.Hints["C"]; ok {
+			tags = append(tags, "cgo-hint-on-C")
+		}
+		others := map[string]bool{}
+		for i, p := range rc.Paths {
+			if rc.Rendered[i] && p != "C" && p != rc.Local {
+				others[p] = true
+			}
+		}
+		for p := range rc.Anon {
+			if p != "C" && p != rc.Local {
+				others[p] = true
+			}
+		}
+		n := fmt.Sprint(len(others))
+		if len(others) >= 3 {
+			n = "3+"
+		}
+		tags = append(tags, "other-imports="+n)
+		if rc.Cgo && !anonC && !hasC {
+			tags = append(tags, "cgo-preamble-only+other-imports="+n)
+		}
+	}
+	if rc.Prefix == "" {
+		for i, p := range rc.Paths {
+			if _, hinted := rc.Hints[p]; rc.Rendered[i] && IsKeywordPath(p) && p != rc.Local && !hinted {
+				tags = append(tags, "keyword-path-no-prefix")
+				break
+			}
+		}
+	}
+	if pair {
+		tags = append(tags, "trailing-slash-pair")
+		n := 0
+		for i, p := range rc.Paths {
+			if rc.Rendered[i] && (has(rc.Paths, p+"/") || (len(p) > 0 && p[len(p)-1] == '/' && has(rc.Paths, p[:len(p)-1]))) {
+				n++
+			}
+		}
+		if n >= 2 {
+			tags = append(tags, "trailing-slash-pair-both-referenced")
+		}
+	}
+	blank := false
+	for _, op := range setup {
+		var ps [][2]string
+		switch op.Kind {
+		case "importname", "importalias":
+			ps = [][2]string{{op.A, op.B}}
+		case "importnames":
+			ps = op.Pairs
+		}
+		for _, p := range ps {
+			if p[1] != "_" {
+				continue
+			}
+			blank = true
+			for i, q := range rc.Paths {
+				if q == p[0] && (rc.Rendered[i] || rc.Hidden[i]) {
+					// outside the domain: a `_` hint for a referenced path (the generator never does that)
+					panic("harness: blank hint for the referenced path " + q)
+				}
+			}
+		}
+	}
+	if blank {
+		tags = append(tags, "blank-hint-unreferenced")
+	}
+	return tags
+}
+
+func has(l []string, s string) bool {
+	for _, x := range l {
+		if x == s {
+			return true
+		}
+	}
+	return false
 }
 
 // refAnonTags: anon-then-hint (an Anon of a path is followed by a hint for the same path),
@@ -94,7 +407,7 @@ func (c03) Generate(r *rand.Rand, t string) []*Case {
 		if i%10 == 0 {
 			max = 40
 		}
-		out = append(out, refCaseRandom(r, max, SetupOpts{NoCgo: true}, 0))
+		out = append(out, refCaseRandom(r, max, SetupOpts{}, 0))
 	}
 	return out
 }
